@@ -271,13 +271,17 @@ mod verif_c17_async {
         }
     }
 
-    // @harness id=C17 tier=thorough timeout=3400 mem=14 features=tokio,futures
-    // @bounds futures Stream::poll_next, 3 polls of a stream of 0..=2 items that may answer Pending at any poll: same items; position += 1 per item, unchanged on Pending; the end of the stream finishes the bar (AndLeave: position = length)
+    // @harness id=C17 tier=quick timeout=3000 mem=12 features=tokio,futures
+    // @bounds futures Stream::poll_next, 3 polls of a stream of 0..=2 items that may answer Pending at any poll (ProgressBar::finish_using_style replaced by a recorder): same items; position += 1 per item, unchanged on Pending; the end of the stream finishes the bar
     #[kani::proof]
     #[kani::unwind(10)]
     #[kani::stub(crate::state::AtomicPosition::allow, never_allow)]
-    //@STUBS std now noterm nomulti norender rlany noweight
+    //@STUBS std now noterm nomulti norender rlany noweight pbfinishrec
     fn c17_stream_poll_next() {
+        unsafe {
+            PB_FINISHED = false;
+            PB_FINISH_CALLS = 0;
+        }
         use futures_core::Stream;
         let n: usize = kani::any();
         kani::assume(n <= 2);
@@ -295,11 +299,8 @@ mod verif_c17_async {
                 }
                 Poll::Ready(None) => ended = true,
             }
-            if ended {
-                assert!(w.progress.is_finished() && w.progress.position() == 100);
-            } else {
-                assert!(w.progress.position() == got);
-            }
+            assert!(w.progress.position() == got);
+            assert!((unsafe { PB_FINISH_CALLS } >= 1) == ended);
             k += 1;
         }
         kani::cover!(ended && got == 2);
